@@ -67,7 +67,35 @@ def OldWellFormed (old : ValSet) (c : Commit) : Prop :=
 /-- No two non-nil entries name the same address (true of every commit whose
 entry `i` names validator `i` of a set with distinct addresses). -/
 def DistinctNames (c : Commit) : Prop :=
-  ∀ (i j : Nat) (e e' : Entry), c.precommits[i]? = some (some e) → c.precommits[j]? = some (some e') →
-    e.valAddr = e'.valAddr → i = j
+  (c.precommits.filterMap id).Pairwise (fun e e' => e.valAddr ≠ e'.valAddr)
+
+/-! ### which error is returned (decision lists, first failing check wins) -/
+
+/-- some non-nil entry's signature does not verify -/
+def hasBadSig (es : List (Option Entry)) : Bool :=
+  es.any (fun oe => match oe with | some e => !e.sigOK | none => false)
+
+/-- The decision list `VerifyCommit` implements (first failing check wins). -/
+def verifyCommitSpec (vals : ValSet) (B : Nat) (H : Int) (c : Commit) : Res :=
+  match validateBasic c with
+  | .error e => .error e
+  | .ok _ =>
+    if c.precommits.length ≠ vals.length then .error .size
+    else if c.height ≠ H then .error .height
+    else if c.blockID ≠ B then .error .blockID
+    else if hasBadSig c.precommits then .error .sig
+    else if 3 * signedPower vals B H c > 2 * sumPowers vals then .ok () else .error .power
+
+/-- for some old validator, the first entry naming it does not verify under its old key -/
+def hasBadOldSig (old : ValSet) (es : List (Option Entry)) : Bool :=
+  old.any (fun v => match firstNaming v.addr es with | some e => !e.sigOKOld | none => false)
+
+/-- The decision list `VerifyFutureCommit` implements. -/
+def verifyFutureCommitSpec (old new : ValSet) (B : Nat) (H : Int) (c : Commit) : Res :=
+  match verifyCommitSpec new B H c with
+  | .error e => .error e
+  | .ok _ =>
+    if hasBadOldSig old c.precommits then .error .fSig
+    else if 3 * oldSignedPower old B H c > 2 * sumPowers old then .ok () else .error .fPower
 
 end GnoVerif.C36
